@@ -896,7 +896,32 @@ func (w *world) bounce() {
 	w.forceEpoch = epPartial
 }
 
+// runAfterQuit: the background job started with an already closed quit channel (a cluster that is
+// stopped right after it was started) must return without touching anything.
+func (w *world) runAfterQuit() {
+	q := make(chan struct{})
+	close(q)
+	done := make(chan struct{})
+	writes := w.kv.Writes()
+	go func() { w.m.Run(q); close(done) }()
+	select {
+	case <-done:
+	case <-time.After(10 * time.Second):
+		w.r.Inconclusive("Run with a closed quit channel did not return within 10 s")
+		w.dead = true
+		return
+	}
+	now, _ := w.observe()
+	w.r.Count("run_after_quit", 1)
+	if now != w.last || w.kv.Writes() != writes {
+		w.r.Violation("run-after-quit-changed-state", fmt.Sprintf("Run(quit already closed) changed the served status from %v to %v (storage writes %d)", w.last, now, w.kv.Writes()-writes), w.witness(nil))
+	}
+}
+
 func (w *world) restartStep() {
+	if w.rng.Intn(3) == 0 {
+		w.runAfterQuit()
+	}
 	w.logf("restart")
 	old := w.m
 	if err := w.call(callInfo{kind: "restart"}, w.construct); err != nil {
@@ -904,6 +929,13 @@ func (w *world) restartStep() {
 		w.r.Count("restart_failed", 1)
 	}
 	w.streak = 0
+	// the first call after a reload is a configuration update or a stopped job as often as a tick
+	switch w.rng.Intn(4) {
+	case 0:
+		w.configStep()
+	case 1:
+		w.runAfterQuit()
+	}
 }
 
 // run executes the whole history.
